@@ -79,7 +79,10 @@ def prepare(ctx):
 
 def eval_case(ctx, case):
     """case: {answer, net_ready, cmd, bound, cap, only: [choices] | None}"""
-    ok, bad, sealed = prepare(ctx)
+    try:
+        ok, bad, sealed = prepare(ctx)
+    except ops.ScenarioFailure:
+        return [], 0, {"scenario could not be prepared": 1}, False, 0
     group, cname, args = commands(ok, bad)[case["cmd"]]
     ans = answers()[case["answer"]]
     sub.NOW[0] = sub.NOW0
